@@ -1517,9 +1517,10 @@ class Unit:
             raise ExtractError(f"{label}: `{icfg['let_of']}` matched {len(idx)} times")
         if seq[0] != "let":
             raise ExtractError(f"{label}: the anchor must start with `let`")
-        k = idx[0] + len(seq)
-        if ct[k - 1].text != "=":
-            raise ExtractError(f"{label}: the anchor must end with `=`")
+        # the initialiser starts after the FIRST `=` of the anchor (the anchor may go on, to tell several `let x =` apart)
+        if "=" not in seq:
+            raise ExtractError(f"{label}: the anchor must contain `=`")
+        k = idx[0] + seq.index("=") + 1
         e = k
         depth = 0
         while True:
